@@ -2663,8 +2663,10 @@ class Model:
             # Restrict the parameter's value if a limiting range was defined
             for par in pars:
                 if par.derivative and ti < len(self.t) - 1:
-                    # If derivative parameter, then perform an Euler forward step before constraining
-                    par[ti + 1] = par[ti] + par._dx * self.dt
+                    # If derivative parameter, then perform an Euler forward step before constraining - unless the next value is supplied
+                    # by a parameter scenario (the function, i.e. the derivative, is suspended there and the scenario values are already in place)
+                    if par.skip_function is None or (self.t[ti + 1] < par.skip_function[0]) or (self.t[ti + 1] > par.skip_function[1]):
+                        par[ti + 1] = par[ti] + par._dx * self.dt
                     par.constrain(ti + 1)
                 else:
                     par.constrain(ti)
